@@ -1245,14 +1245,14 @@ def run(prop, seed, tier, extra_inputs=(), boost=1, kf=None):
                 if res["sample"] is None and res["nontrivial"] > 3:
                     res["sample"] = {"op": opname, "input": inp}
             if r:
-                f = {"op": opname, "input": inp, "detail": r[:3]}
-                if recognise(prop, f, kf):
+                fail = {"op": opname, "input": inp, "detail": r[:3]}
+                if recognise(prop, fail, kf):
                     known_here += 1
                     if known_here <= 3:          # keep a few instances of listed findings, never let them crowd out new ones
-                        res["failures"].append(f)
+                        res["failures"].append(fail)
                 else:
                     new_here += 1
-                    res["failures"].append(f)
+                    res["failures"].append(fail)
                     if new_here >= 8:
                         break
     return res
@@ -1332,9 +1332,12 @@ def shrink(prop, failure):
 
     cur, budget = inp, 300
     improved = True
+    cfg_first = op in ("tok_roundtrip", "tok_stateful", "tok_stream", "vocab")   # never shrink inside a configuration
     while improved and budget > 0:
         improved = False
-        for cand in try_lists(cur):
+        cands = try_lists(cur) if not cfg_first else \
+            ((cur[:1] + rest) for rest in try_lists(tuple(cur[1:]))) if op != "vocab" else iter(())
+        for cand in cands:
             budget -= 1
             if budget <= 0:
                 break
